@@ -5,6 +5,7 @@ import z3
 from pyvc.vals import *          # noqa: F401,F403
 from pyvc.contract import Contract, Loop, Lemma, Group
 from pyvc.models.trace import Trace
+from pyvc.engine import PyRaise
 
 MP4 = 'dashlive/mpeg/mp4.py'
 FIO_W, FIO_R = 'dashlive/utils/fio/field_writer.py', 'dashlive/utils/fio/field_reader.py'
@@ -22,7 +23,7 @@ def world():
     for k in range(2):
         for f in ('ref_type', 'ref_size', 'duration', 'starts_with_SAP', 'SAP_type', 'SAP_delta_time'):
             w[f'r{k}_{f}'] = z3.Int(f'r{k}_{f}')
-    for nm in ('p0', 'fields_len', 'child0_size', 'child1_size', 'child2_size'):
+    for nm in ('p0', 'fields_len', 'child0_size', 'child1_size', 'child2_size', 'pos0', 'total', 'size32', 'size64'):
         w[nm] = z3.Int(nm)
     w['stream_end'] = lambda st: st.end()
     w['at_end'] = lambda st: z3.BoolVal(st.cursor is None)
@@ -462,6 +463,123 @@ TFDT_SETATTR = Contract(
     witness_terms=lambda w: (lambda ev: {k: ev(z3.Int(k)) for k in ('version', 'bmdt', 'value')}),
 )
 
+# ----------------------------------------------------------------------------- the box header parser (C04 / C16)
+class HeaderSource:
+    """A readable source of `total` bytes positioned at `pos0`, whose next bytes are a box header: 32-bit size, four type
+    bytes (concrete per variant), then - if asked for - a 64-bit size and / or 16 uuid bytes.  read(n) returns fewer than
+    n bytes when the source ends (the case a truncated upload exercises)."""
+
+    def __init__(self, w, type_bytes):
+        self.w, self.type_bytes, self.cursor = w, type_bytes, w['pos0']
+
+    def avail(self):
+        return self.w['total'] - self.cursor
+
+    def method(self, eng, name, args, kwargs, e):
+        w = self.w
+        if name == 'tell':
+            return self.cursor
+        if name == 'seek':
+            if len(args) == 2 and args[0] == 0 and args[1] == 2:
+                self.cursor = w['total']
+            elif len(args) == 1:
+                self.cursor = zint(args[0])
+            else:
+                raise Unsupported('seek form')
+            return self.cursor
+        if name == 'read' and isinstance(args[0], int):
+            n = args[0]
+            off = z3.simplify(self.cursor - w['pos0'])
+            enough = eng.branch(self.avail() >= n)
+            if not enough:
+                got = ShortBytes(self.avail())
+                self.cursor = w['total']
+                return got
+            self.cursor = self.cursor + n
+            if off.eq(z3.IntVal(0)) and n == 8:
+                return HeaderBytes(w['size32'], self.type_bytes)
+            if n == 8:
+                return Packed8(w['size64'])
+            return UuidBytes()
+        raise Unsupported(f'source.{name}')
+
+
+class ShortBytes:
+    py_types = ('bytes',)
+
+    def __init__(self, n):
+        self.n = n                      # 0 <= n < what was asked for
+
+    def len(self, eng):
+        return self.n
+
+    def truthy(self):
+        return self.n > 0
+
+
+class HeaderBytes:
+    py_types = ('bytes',)
+
+    def __init__(self, size32, type_bytes):
+        self.size32, self.type_bytes = size32, type_bytes
+
+    def len(self, eng):
+        return 8
+
+    def truthy(self):
+        return True
+
+
+class Packed8(HeaderBytes):
+    def __init__(self, v):
+        self.v = v
+
+
+class UuidBytes(HeaderBytes):
+    def __init__(self):
+        pass
+
+    def len(self, eng):
+        return 16
+
+
+def header_unpack(eng, e, a, kw):
+    fmt, data = a
+    if fmt == '>I4s' and isinstance(data, HeaderBytes) and not isinstance(data, (Packed8, UuidBytes)):
+        return (data.size32, data.type_bytes)
+    if fmt == '>Q' and isinstance(data, Packed8):
+        return (data.v,)
+    if fmt == '>Q' and isinstance(data, ShortBytes):
+        raise PyRaise('struct.error')          # unpack requires a buffer of 8 bytes
+    raise Unsupported(f'struct.unpack({fmt!r}) of {type(data).__name__}')
+
+
+def header_contract(label, type_bytes):
+    ascii_ok = all(c < 128 for c in type_bytes)
+    is_uuid = type_bytes == b'uuid'
+    none_when = 'total - pos0 < 8 or (size32 == 1 and (total - pos0 < 16 or size64 == 0))' + ('' if ascii_ok else ' or True')
+    hdr = '(16 if size32 == 1 else 8)' + (' + 16' if is_uuid else '')
+    return Contract(
+        key=f'{MP4}:Mp4Atom.parse', variant=label, props=['C04', 'C16'],
+        env=lambda w: {'cls': Opaque('class:Mp4Atom'), 'src': HeaderSource(w, type_bytes), 'parent': None,
+                       'options': Obj('Options', {'log': Opaque('log')}), 'kwargs': {}},
+        requires=[('source', f'pos0 >= 0 and total >= pos0 and 0 <= size32 and size32 < {U32} and 0 <= size64 and size64 < {U64}'),
+                  # region: a uuid box header is followed by its 16 uuid bytes (the code does not check their length)
+                  ('region_uuid_complete', 'True' if not is_uuid else 'total - pos0 >= (32 if size32 == 1 else 24)')],
+        models={'struct.unpack': header_unpack, 'options.log.debug': lambda eng, e, a, kw: None,
+                "b''.join": lambda eng, e, a, kw: Opaque('header-bytes'), 'binascii.b2a_hex': lambda eng, e, a, kw: Opaque('hex')},
+        ensures=[('unreadable_header_ends_the_scan', f'is_unset(result) == ({none_when})'),
+                 ('position', f"True if ({none_when}) else result['position'] == pos0"),
+                 ('size', f"True if ({none_when}) else result['size'] == (total - pos0 if size32 == 0 else (size64 if size32 == 1 else size32))"),
+                 ('header_size', f"True if ({none_when}) else result['header_size'] == {hdr}")],
+        canaries=['is_unset(result)'],
+        witness_terms=lambda w: (lambda ev: {k: ev(z3.Int(k)) for k in ('pos0', 'total', 'size32', 'size64')}),
+    )
+
+
+HEADER = [header_contract('mdat', b'mdat'), header_contract('uuid', b'uuid'), header_contract('non-ascii-type', b'\xff\xfe\xfd\xfc')]
+
+
 # ----------------------------------------------------------------------------- C03: two-pass encode, sizes back-patched
 def encode_contract(nchildren, depth):
     """Mp4Atom.encode (not pre-encoded): position, size, the back-patched size field, child placement.  The recursive
@@ -608,7 +726,7 @@ FIND_FIRST = Contract(key=f'{MP4}:SampleAuxiliaryInformationOffsetsBox.find_firs
 
 GROUP = Group(
     name='mp4', world=world,
-    contracts=[MFHD, MEHD, TREX, TFDT, TFHD, TRUN, TENC, MDHD] + EMSG + PSSH + SIDX + ENCODE + TRUN_SAMPLES + [BTRT, PASP, TFDT_SETATTR, TRUN_POST_ENCODE] + SAIO + [FIND_FIRST] + INLINE,
+    contracts=[MFHD, MEHD, TREX, TFDT, TFHD, TRUN, TENC, MDHD] + EMSG + PSSH + SIDX + ENCODE + HEADER + TRUN_SAMPLES + [BTRT, PASP, TFDT_SETATTR, TRUN_POST_ENCODE] + SAIO + [FIND_FIRST] + INLINE,
     assumptions=[
         'C04: FieldWriter.__init__/write and FieldReader.__init__/read/get/skip (dashlive/utils/fio) are analysed as real code '
         '(inlined at every call, for the format codes the boxes under contract use); struct.pack / struct.unpack (stdlib) and '
@@ -621,7 +739,7 @@ GROUP = Group(
     ],
     trusted=['pyvc/models/trace.py (byte trace, struct.pack/unpack models, byte decomposition)'],
     not_covered=['list-bearing boxes beyond the fixed shapes proved (trun with 1-2 samples under all 64 flag combinations, sidx with '
-                 '0-2 references, pssh with 0-3 key ids): saiz, saio, senc, stsd, sample entries, descriptors, the box header '
-                 'parser (size / uuid / 64-bit size), lazy loading and pre-encoded boxes, JSON round trip, tree edits '
+                 '0-2 references, pssh with 0-3 key ids): saiz, saio, senc, stsd, sample entries, descriptors, '
+                 'Mp4Atom.load (the scan loop; the box header parser Mp4Atom.parse IS covered), lazy loading and pre-encoded boxes, JSON round trip, tree edits '
                  '(append/insert/remove and update_size), Mp4Atom.load'],
 )
